@@ -787,6 +787,115 @@ func runC18(c *Check, a *Analysis) {
 		}
 	}
 
+	// ---- ordering inside the waiter protocol
+	c.Rule("R-WAITER-ORDER", "a waiter's error is stored before it is signalled (in Close's sweep and in checkClosed); a waiter's Done channel is installed before the waiter is registered; the fast path of director (Director hook / schedule under the lock) is taken only when the fallback counter is zero, and Fallback's goroutine always decrements the counter it incremented", 5)
+	for _, fn := range p.Fns {
+		if recvName(topParent(fn)) != "Client" {
+			continue
+		}
+		for _, dn := range callsIn(fn, "(*waiter).done") {
+			in := dn.(ssa.Instruction)
+			for _, st := range p.fieldStoresIn(fn, "waiter", "err") {
+				_, base, _ := fieldOfAddr(st.Addr)
+				if !p.sameVar(base, dn.Common().Args[0]) {
+					continue
+				}
+				ok := p.dominatesInstr(st, in) || !p.canReach(in, st, func(x ssa.Instruction) bool { return redefines(p, x, dn.Common().Args[0]) })
+				c.Ob("R-WAITER-ORDER", sc.key(fn, "w.err before w.done()"), p.InstrPos(in), ok, ifs(!ok, "a waiter is signalled before its error is stored: the woken caller reads a nil error and routes a call although the client is closed"))
+			}
+		}
+	}
+	if dir := p.Fn("(*Client).director"); dir != nil {
+		for _, fn := range withClosures(dir) {
+			for _, wt := range callsIn(fn, "(*Client).wait") {
+				in := wt.(ssa.Instruction)
+				okd := false
+				for _, st := range p.fieldStoresIn(fn, "waiter", "Done") {
+					_, base, _ := fieldOfAddr(st.Addr)
+					if p.sameVar(base, wt.Common().Args[1]) && p.dominatesInstr(st, in) {
+						okd = true
+					}
+				}
+				c.Ob("R-WAITER-ORDER", sc.key(fn, "w.Done installed before registration"), p.InstrPos(in), okd, ifs(!okd, "the waiter is registered before its Done channel is installed: a wake-up in between is sent on a nil channel and lost"))
+			}
+		}
+		// fast path gated by fallback == 0
+		isFallbackZero := func(cond ssa.Value) (bool, bool) {
+			b, ok := cond.(*ssa.BinOp)
+			if !ok {
+				return false, false
+			}
+			cc, isC := stripConv(b.X).(*ssa.Call)
+			k, isK := constInt(b.Y)
+			if !isC || !isK || k != 0 || calleeName(cc) != "sync/atomic.LoadInt32" {
+				return false, false
+			}
+			fr, _, okf := fieldOfAddr(cc.Call.Args[0])
+			if !okf || fr.Struct != "Client" || fr.Field != "fallback" {
+				return false, false
+			}
+			switch b.Op {
+			case token.EQL:
+				return true, true
+			case token.NEQ, token.GTR:
+				return true, false
+			}
+			return false, false
+		}
+		nFast := 0
+		eachInstr(dir, func(in ssa.Instruction) {
+			cc, ok := in.(*ssa.Call)
+			if !ok {
+				return
+			}
+			hook := isLoadOf(p.canon(cc.Common().Value), "Client", "Director")
+			if !hook {
+				return
+			}
+			nFast++
+			g, _ := p.guardedBy(in, isFallbackZero)
+			c.Ob("R-WAITER-ORDER", sc.key(dir, "fast path only when fallback == 0"), p.InstrPos(in), g, ifs(!g, "the Director hook is consulted although the client is in Fallback (or is skipped when it is not)"))
+		})
+		// the first schedule() (before any wait) is gated as well
+		for _, sc2 := range callsIn(dir, "(*Client).schedule") {
+			in := sc2.(ssa.Instruction)
+			beforeWait := true
+			for _, wt := range callsIn(dir, "(*Client).wait") {
+				if p.canReach(wt.(ssa.Instruction), in, nil) {
+					beforeWait = false
+				}
+			}
+			if !beforeWait {
+				continue
+			}
+			nFast++
+			g, _ := p.guardedBy(in, isFallbackZero)
+			c.Ob("R-WAITER-ORDER", sc.key(dir, "immediate scheduling only when fallback == 0"), p.InstrPos(in), g, ifs(!g, "a call is scheduled immediately although the client is in Fallback"))
+		}
+		if nFast == 0 {
+			c.Undecided("R-WAITER-ORDER", "no fast path found in director")
+		}
+	}
+	if fb := p.Fn("(*Client).Fallback"); fb != nil {
+		isAdd := func(x ssa.Instruction, k int64) bool {
+			cc, ok := x.(*ssa.Call)
+			if !ok || calleeName(cc) != "sync/atomic.AddInt32" {
+				return false
+			}
+			fr, _, okf := fieldOfAddr(cc.Call.Args[0])
+			kk, isK := constInt(cc.Call.Args[1])
+			return okf && fr.Struct == "Client" && fr.Field == "fallback" && isK && kk == k
+		}
+		_, _, incOK := p.mustPass(fb, nil, func(x ssa.Instruction) bool { return isAdd(x, 1) })
+		decOK := false
+		for _, f := range withClosures(fb)[1:] {
+			if _, _, okp := p.mustPass(f, nil, func(x ssa.Instruction) bool { return isAdd(x, -1) }); okp {
+				decOK = true
+			}
+		}
+		c.Ob("R-WAITER-ORDER", "(*Client).Fallback#counter +1 then -1 on every path of the timer goroutine", fb.Pos(), incOK && decOK, ifs(!(incOK && decOK), "Fallback does not pair its increment of the fallback counter with a decrement on every path: the client stays paused forever (every caller waits DialTimeout) or is never paused"))
+	}
+
 	// ---- R-WAKE
 	c.Rule("R-WAKE", "checkPending is called with Client.lock held from the detector and from every rebuild that leaves the live list non-empty; it removes what it wakes", 3)
 	cp := p.Fn("(*Client).checkPending")
